@@ -215,6 +215,9 @@ func c05Case(c *Ctx) {
 	}
 	for k := 0; k < per; k++ {
 		w := genWLCase(c.R, wlOpts{minWords: 1, maxWords: 12, maxLen: 12, twins: true, uncap: true, allowUnknownScheme: true, hostileWords: c.R.Chance(1, 4), noReqSep: c.R.Bool()})
+		if c.R.Chance(1, 10) { // long passwords
+			w.Length = c.R.Range(30, 80)
+		}
 		emptyClass := c.R.Chance(1, 12)
 		if emptyClass {
 			w.Words = append(w.Words, "")
